@@ -6,6 +6,7 @@ oracle: (i) dispatch: which region / state every obstacle reports for t0-2 .. t_
 corr:   Model/Occupancy.v evaluated by vm_compute on the same cases (Corr/C04.v)."""
 import math
 import random
+import time
 
 import numpy as np
 
@@ -595,8 +596,14 @@ def eval_obs(case, res):
     term = c_obst(ob, num)
     pred = getattr(ob, "prediction", None)
     for t in range(t0 - 2, tf + 3):
-        occ = ob.occupancy_at_time(t)
-        st = ob.state_at_time(t) if role in ("static", "dynamic") else None
+        try:  # the statement gives an answer (a value or None) for every integer t: an exception is a violation
+            occ = ob.occupancy_at_time(t)
+            st = ob.state_at_time(t) if role in ("static", "dynamic") else None
+        except Exception as e:  # noqa
+            res.bad(f"dispatch:{role}:{type(pred).__name__}:raises {type(e).__name__}",
+                    f"{role} obstacle (sub-seed {case['sub']}) t={t} (t0={t0}, final={tf}): occupancy_at_time / state_at_time "
+                    f"raises {type(e).__name__}: {e}")
+            continue
         # ---- oracle (i): which region / state, from the raw stored data
         exp_state, exp_shape_src = None, None   # exp_shape_src: ('state', shape, state) | ('stored', shape) | None
         if role == "static":
@@ -652,7 +659,12 @@ def eval_obs(case, res):
         tt = c_obst(ob, num)
         sts = qlist([c_st(s.time_step, 1 + i) for i, s in enumerate(tr.state_list)])
         for t in range(tr.initial_time_step - 2, tr.initial_time_step + len(tr.state_list) + 2):
-            s = tr.state_at_time_step(t)
+            try:
+                s = tr.state_at_time_step(t)
+            except Exception as e:  # noqa
+                res.bad(f"trajectory:state_at_time_step:raises {type(e).__name__}",
+                        f"trajectory t_init={tr.initial_time_step} n={len(tr.state_list)} t={t}: raises {type(e).__name__}: {e}")
+                continue
             exp = [x for x in tr.state_list if x.time_step == t]
             if (s is None) != (not exp) or (s is not None and s is not exp[0]):
                 res.bad("trajectory:state_at_time_step", f"trajectory t_init={tr.initial_time_step} n={len(tr.state_list)} t={t}: "
@@ -673,9 +685,10 @@ def eval_scn(case, res):
         return
     tmax = max([time_range(o)[1] for o in built] + [0]) + 1
     term = qlist([c_obst(o, nums[o.obstacle_id], with_centres=True) for o in built])
-    for t in [-1] + list(range(0, tmax + 1)):
+    # t = -1 (assertion), 0, the last step + 1 and up to four steps in between
+    for t in [-1, 0] + sorted(rng.sample(range(1, tmax), min(4, max(0, tmax - 1)))) + ([tmax] if tmax > 0 else []):
         # occupancies_at_time_step
-        for r in [None] + list(ROLE_ENUM):
+        for r in [None] + rng.sample(list(ROLE_ENUM), 2):   # no filter + two of the four roles per time step
             if t == -1 and r is not None:
                 continue
             try:
@@ -733,7 +746,7 @@ def eval_scn(case, res):
         if t < 0:
             continue
         # obstacles_by_position_intervals
-        for _ in range(2):
+        for _ in range(1):
             cx, cy = rng.uniform(-10, 40), rng.uniform(-10, 10)
             hw, hh = rng.choice([5, 20, 100, 0.5]), rng.choice([5, 20, 100, 0.5])
             x0, x1, y0, y1 = cx - hw, cx + hw, cy - hh, cy + hh
@@ -774,7 +787,7 @@ def eval_scn(case, res):
     # obstacles_by_role_and_type
     types = sorted({o.obstacle_type for o in obs if hasattr(o, "obstacle_type")}, key=lambda x: x.value)[:3]
     for r in [None] + list(ROLE_ENUM):
-        for ty in [None] + types + [ObstacleType.TRAIN]:
+        for ty in [None] + rng.sample(types + [ObstacleType.TRAIN], min(2, len(types) + 1)):
             try:
                 got = sc.obstacles_by_role_and_type(None if r is None else ROLE_ENUM[r], ty)
             except Exception as e:  # noqa
@@ -959,7 +972,20 @@ EVAL = {"obs": eval_obs, "scn": eval_scn, "place": eval_place, "enc": eval_enc}
 
 def evaluate(case):
     res = Result()
-    EVAL[case["kind"]](case, res)
+    try:
+        EVAL[case["kind"]](case, res)
+    except Exception as e:  # noqa
+        # an exception raised inside the library by a call the statement gives an answer for (every query of the
+        # admissible domain returns a value or None) is a violation with this case as replay; an exception of the
+        # harness itself propagates (vlib/main.py reports the crash)
+        import traceback
+        frames = traceback.extract_tb(e.__traceback__)
+        lib = [f for f in frames if "/commonroad/" in f.filename.replace("\\", "/")]
+        if not lib:
+            raise
+        res.bad(f"raises {type(e).__name__}:{case['kind']}:{lib[-1].name}",
+                f"{case['kind']} case sub-seed {case['sub']}: {lib[-1].name} "
+                f"({lib[-1].filename.split('/commonroad/')[-1]}:{lib[-1].lineno}) raises {type(e).__name__}: {e}")
     return res
 
 
@@ -980,12 +1006,15 @@ def run(ctx):
                    "coq/Corr/C04.v evaluated on every run",
                    "harness/props/c04.py, c05_lib.py, vlib/scen.py (generators, independent placement and sampling "
                    "oracle, Coq term printers)",
-                   "numpy / libm arctan, cos, sin, sqrt; shapely bounds, centroid and affinity.rotate (oracle inputs of "
-                   "the enclosure model; the enclosure theorem carries the facts assumed about them as hypotheses)"]
+                   "numpy / libm arctan, cos, sin, sqrt, atan2; shapely bounds, centroid and affinity.rotate (oracle inputs of "
+                   "the placement / enclosure model; the enclosure theorems (..._partial) carry the trigonometric facts "
+                   "assumed about them as hypotheses orc_ok / dev_ok, see Props/C04.v)"]
+    t_start = time.time()
     ctx.build_props(extra_targets=("Corr/C04.vo",))
+    t_built = time.time()
     if ctx.tier == "thorough":
         ctx.coqchk()
-    n = ctx.n(600, 9000)
+    n = ctx.n(400, 4000)
     cases = load_corpus(ctx.prop) + gen(ctx.rng, n)
     terms, owner = [], []
 
@@ -1001,6 +1030,7 @@ def run(ctx):
                     owner.append(c)
 
     process(cases)
+    t_eval = time.time()
     defs = f"Definition tau : Q := {qq(TWO_PI)}.\nDefinition chk := check tau.\n"
     bad, errors = ctx.coq_bad_indices("corr", IMPORTS, defs, terms, "chk", shard=400)
     ctx.coverage["correspondence_cases"] = len(terms)
@@ -1010,6 +1040,8 @@ def run(ctx):
     for i in bad:
         ctx.corr_break("Corr.C04.check: Model/Occupancy.v vs implementation", dict(owner[i], term=terms[i][:300]))
     ctx.log(f"corr terms={len(terms)} disagree={len(bad)} coq_errors={len(errors)}")
+    ctx.log(f"timing: build (incl. waiting for the build lock) {t_built - t_start:.0f}s, cases + oracle {t_eval - t_built:.0f}s, "
+            f"model evaluation in Coq {time.time() - t_eval:.0f}s")
     for i in bad[:4]:
         ctx.log(f"  disagreeing: {kind(owner[i])} sub-seed {owner[i]['sub']}: {terms[i][:260]}")
     if (ctx.proof_breaks or ctx.corr_breaks) and not ctx.failures:
